@@ -334,7 +334,10 @@ func (fi *FileInfo) checkObjects() error {
 			// cycles, so this stays safe on malformed input.
 			x, endPos, err := fi.doRead(objInfo, fi.makeSafeGetInt(), false)
 			if err != nil {
-				if IsMalformed(err) {
+				// An object cut short by the end of the file is reported by
+				// the scanner as plain EOF; like any other unparsable object
+				// it is marked broken instead of aborting the whole scan.
+				if IsMalformed(err) || errors.Is(err, io.EOF) || errors.Is(err, io.ErrUnexpectedEOF) {
 					objInfo.Broken = true
 					continue
 				}
